@@ -89,11 +89,12 @@ type State struct {
 	trace  []string // human-readable branch decisions
 	panicking bool
 	calls   []string        // names of the callees called so far on this path (for ncalls(...) in specs)
+	tagOf   map[string]int  // dynamic type decided on this path for an interface value's tag term (closed-interface dispatch)
 	private map[string]bool // objects allocated by this execution whose address has not escaped (unknown callees cannot touch them)
 }
 
 func newState() *State {
-	return &State{regs: map[ssa.Value]Val{}, cells: map[*ssa.Alloc]Val{}, ver: map[string]string{}, seenFn: map[int]string{}}
+	return &State{regs: map[ssa.Value]Val{}, cells: map[*ssa.Alloc]Val{}, ver: map[string]string{}, seenFn: map[int]string{}, tagOf: map[string]int{}}
 }
 
 func (s *State) clone() *State {
@@ -112,6 +113,9 @@ func (s *State) clone() *State {
 	}
 	n.epoch = s.epoch
 	n.gepoch = s.gepoch
+	for k, t := range s.tagOf {
+		n.tagOf[k] = t
+	}
 	n.pc = append([]string{}, s.pc...)
 	n.prev = s.prev
 	n.defers = append([]deferred{}, s.defers...)
